@@ -296,6 +296,17 @@ def gen_cases(ctx):
         return out
     structural = [v for v in U.LISTS if v[0] == 'L'] + [P([1.5, 2.5]), P([[1.5, 2.5]]), P([[1.0, 2.0], [3.0, 4.0]]),
                                                           P([0.5]), P([[0.5]]), P([1.0, 2.0]), P([])]
+    # a list against a proper prefix of itself, in both orders (strings, symbols, nested and ragged members too)
+    prefixable = [v for v in U.LISTS if v[0] == 'L' and len(v[1]) >= 2] + [
+        U.L(U.S("a"), U.S("b"), U.S("c")), U.L(U.Y("a"), U.Y("b"), U.Y("c")), P([1, [2], 3]), P([[1], [2, 3], [4]]),
+        U.L(U.C("x"), U.C("y"), U.C("z")), U.L(U.I(1), U.S("a"), U.Y("b"))]
+    for v in prefixable:
+        for cut in (1, len(v[1]) - 1):
+            w = ('L', v[1][:cut])
+            cases.append(("D", "~", v, w))
+            cases.append(("D", "~", w, v))
+            cases.append(("D", "?", ('L', [v, w]), w))
+            cases.append(("D", "?", ('L', [w, v]), v))
     for v in structural:
         for w in wraps(v):
             cases.append(("D", "~", v, w))
